@@ -567,7 +567,7 @@ func specs() map[string][]variant {
 		return &protomodel.CreateCollectionRequest{Name: e.uniq("coll"), DocumentIdFieldName: "_id", Fields: []*protomodel.Field{{Name: "f", Type: protomodel.FieldType_STRING}}}
 	})
 	m["DocumentService.UpdateCollection"] = writeV(func(e *env, p *principal, ch chooser) proto.Message {
-		return &protomodel.UpdateCollectionRequest{Name: seedColl, DocumentIdFieldName: e.uniq("_id")}
+		return &protomodel.UpdateCollectionRequest{Name: ddlColl, DocumentIdFieldName: e.uniq("_id")}
 	})
 	m["DocumentService.DeleteCollection"] = []variant{{name: "write", need: lvRW, scope: "sel", build: func(e *env, p *principal, c *cred, ch chooser) call {
 		name := e.sacrificial("delcoll", p.sel, func(ctx context.Context, name string) error {
@@ -577,31 +577,31 @@ func specs() map[string][]variant {
 		return call{reqs: one(&protomodel.DeleteCollectionRequest{Name: name}), after: e.consumed("delcoll", p.sel)}
 	}}}
 	m["DocumentService.AddField"] = writeV(func(e *env, p *principal, ch chooser) proto.Message {
-		return &protomodel.AddFieldRequest{CollectionName: seedColl, Field: &protomodel.Field{Name: e.uniq("fld"), Type: protomodel.FieldType_INTEGER}}
+		return &protomodel.AddFieldRequest{CollectionName: ddlColl, Field: &protomodel.Field{Name: e.uniq("fld"), Type: protomodel.FieldType_INTEGER}}
 	})
 	m["DocumentService.RemoveField"] = []variant{{name: "write", need: lvRW, scope: "sel", build: func(e *env, p *principal, c *cred, ch chooser) call {
 		name := e.sacrificial("rmfld", p.sel, func(ctx context.Context, name string) error {
-			_, err := e.x.dc.AddField(ctx, &protomodel.AddFieldRequest{CollectionName: seedColl, Field: &protomodel.Field{Name: name, Type: protomodel.FieldType_INTEGER}})
+			_, err := e.x.dc.AddField(ctx, &protomodel.AddFieldRequest{CollectionName: ddlColl, Field: &protomodel.Field{Name: name, Type: protomodel.FieldType_INTEGER}})
 			return err
 		})
-		return call{reqs: one(&protomodel.RemoveFieldRequest{CollectionName: seedColl, FieldName: name}), after: e.consumed("rmfld", p.sel)}
+		return call{reqs: one(&protomodel.RemoveFieldRequest{CollectionName: ddlColl, FieldName: name}), after: e.consumed("rmfld", p.sel)}
 	}}}
 	m["DocumentService.CreateIndex"] = []variant{{name: "write", need: lvRW, scope: "sel", build: func(e *env, p *principal, c *cred, ch chooser) call {
 		name := e.sacrificial("ixfld", p.sel, func(ctx context.Context, name string) error {
-			_, err := e.x.dc.AddField(ctx, &protomodel.AddFieldRequest{CollectionName: seedColl, Field: &protomodel.Field{Name: name, Type: protomodel.FieldType_INTEGER}})
+			_, err := e.x.dc.AddField(ctx, &protomodel.AddFieldRequest{CollectionName: ddlColl, Field: &protomodel.Field{Name: name, Type: protomodel.FieldType_INTEGER}})
 			return err
 		})
-		return call{reqs: one(&protomodel.CreateIndexRequest{CollectionName: seedColl, Fields: []string{name}}), after: e.consumed("ixfld", p.sel)}
+		return call{reqs: one(&protomodel.CreateIndexRequest{CollectionName: ddlColl, Fields: []string{name}}), after: e.consumed("ixfld", p.sel)}
 	}}}
 	m["DocumentService.DeleteIndex"] = []variant{{name: "write", need: lvRW, scope: "sel", build: func(e *env, p *principal, c *cred, ch chooser) call {
 		name := e.sacrificial("dxfld", p.sel, func(ctx context.Context, name string) error {
-			if _, err := e.x.dc.AddField(ctx, &protomodel.AddFieldRequest{CollectionName: seedColl, Field: &protomodel.Field{Name: name, Type: protomodel.FieldType_INTEGER}}); err != nil && !strings.Contains(err.Error(), "already exists") {
+			if _, err := e.x.dc.AddField(ctx, &protomodel.AddFieldRequest{CollectionName: ddlColl, Field: &protomodel.Field{Name: name, Type: protomodel.FieldType_INTEGER}}); err != nil && !strings.Contains(err.Error(), "already exists") {
 				return err
 			}
-			_, err := e.x.dc.CreateIndex(ctx, &protomodel.CreateIndexRequest{CollectionName: seedColl, Fields: []string{name}})
+			_, err := e.x.dc.CreateIndex(ctx, &protomodel.CreateIndexRequest{CollectionName: ddlColl, Fields: []string{name}})
 			return err
 		})
-		return call{reqs: one(&protomodel.DeleteIndexRequest{CollectionName: seedColl, Fields: []string{name}}), after: e.consumed("dxfld", p.sel)}
+		return call{reqs: one(&protomodel.DeleteIndexRequest{CollectionName: ddlColl, Fields: []string{name}}), after: e.consumed("dxfld", p.sel)}
 	}}}
 	m["DocumentService.InsertDocuments"] = writeV(func(e *env, p *principal, ch chooser) proto.Message {
 		d, _ := structpb.NewStruct(map[string]interface{}{"tag": e.uniq("ins"), "n": 100 + e.ctr})
